@@ -12,6 +12,9 @@ Monitor (knows only the I2C protocol and the port list):
   sda_change     the initiator's SDA drive changes with SCL (line) high in that or the previous cycle only as
                  the falling edge of a requested START or the rising edge of a requested STOP
   start_stop     a requested START/STOP produces exactly one such edge before `busy` falls again
+  start_on_line  the START edge is a START *condition*: when the initiator begins to pull SDA for a requested START the
+                 SDA line was still high, or the initiator has driven an SCL low phase since the request (so that a
+                 target holding SDA -- e.g. its ACK, which must stay stable while SCL is high -- could release it)
   write_bits     at the k-th SCL rising edge of a write (k<8) the initiator drives bit 7-k of data_i
   write_release  at the 9th rising edge of a write the initiator has released SDA
   write_ack      ack_o after the write = NOT(SDA line at the 9th rising edge)
@@ -87,7 +90,7 @@ class I2CHarness(Harness):
         self.tgt_sda = self.inp("tgt_sda", 1, init=1)
         self.a = {n: self.assume(n) for n in ("one_strobe", "strobe_when_idle", "tgt_scl_stretch_only",
                                               "tgt_sda_stable_high")}
-        names = ("sda_change", "start_stop", "write_bits", "write_release", "write_ack", "read_release", "read_data",
+        names = ("sda_change", "start_stop", "start_on_line", "write_bits", "write_release", "write_ack", "read_release", "read_data",
                  "read_ack", "nine_clocks", "stretch", "busy_rises")
         self.v = {n: self.viol(n) for n in names}
         self.k_stale = self.kf("start_on_stale_sda")
@@ -161,6 +164,13 @@ class I2CHarness(Harness):
         rise_ev = Signal(name="g_sda_rise_ev")       # initiator releases SDA with SCL high
         m.d.comb += [fall_ev.eq(sda_oe & ~p_sda_oe & high_adj), rise_ev.eq(~sda_oe & p_sda_oe & high_adj)]
 
+        p_sda_line = Signal(init=1, name="g_p_sda_line")
+        scl_low_seen = Signal(name="g_scl_low_seen")
+        sync += p_sda_line.eq(sda_line)
+        with m.If(accept):
+            sync += scl_low_seen.eq(0)
+        with m.Elif(~scl_line):
+            sync += scl_low_seen.eq(1)
         with m.If(accept):
             sync += [
                 op.eq(Mux(self.start, START, Mux(self.stop, STOP, Mux(self.write, WRITE, READ)))),
@@ -205,6 +215,7 @@ class I2CHarness(Harness):
         m.d.comb += [
             self.v["sda_change"].eq((fall_ev & (cur != START)) | (rise_ev & (cur != STOP))),
             self.v["start_stop"].eq(done & (((op == START) & (nfall != 1)) | ((op == STOP) & (nrise != 1)))),
+            self.v["start_on_line"].eq(fall_ev & (cur == START) & ~p_sda_line & ~scl_low_seen),
             self.v["write_bits"].eq(rise & (cur == WRITE) & (npulse < 8) & (sda_oe != ~exp_wbit)),
             self.v["write_release"].eq(rise & (cur == WRITE) & (npulse == 8) & sda_oe),
             self.v["write_ack"].eq(done & (op == WRITE) & (dut.ack_o != exp_ack)),
@@ -255,7 +266,7 @@ def _only_at(times, first_kinds=None):
     return lay
 
 
-CTRL = ["sda_change", "start_stop", "stretch", "busy_rises"]
+CTRL = ["sda_change", "start_stop", "start_on_line", "stretch", "busy_rises"]
 WR = ["write_bits", "write_release", "write_ack"]
 RD = ["read_release", "read_data", "read_ack"]
 CLK = ["nine_clocks"]
